@@ -184,6 +184,13 @@ func (e *FnEnc) constEval(v ssa.Value, depth int) (string, bool) {
 				return "((_ to_fp 11 53) " + a + ")", true
 			}
 		}
+	case *ssa.MakeInterface:
+		// a constant of a basic type boxed into an interface
+		if _, isBasic := x.X.Type().Underlying().(*types.Basic); isBasic {
+			if a, ok := e.constEval(x.X, depth+1); ok {
+				return fmt.Sprintf("(%s %s)", e.R.ifaceCtor(x.X.Type()), a), true
+			}
+		}
 	case *ssa.Convert:
 		if a, ok := e.constEval(x.X, depth+1); ok {
 			t, _ := e.convertTerm(a, x.X.Type(), x.Type(), nil)
